@@ -82,7 +82,8 @@ pub axiom fn axiom_pseudo_count_enosys(fs: &PseudoFs)
 
 
 def retag(c):
-    return re.sub(r'\[C\d\d\.', '[C20.vfs.', c)
+    """[C07.getattr.route] -> [C20.vfs.getattr.route], [C12.vfs.open.no_open] -> [C20.vfs.open.no_open]"""
+    return re.sub(r'\[C\d\d\.(?:vfs\.)?', '[C20.vfs.', c)
 
 
 def unit(root='/repo'):
@@ -127,21 +128,36 @@ def unit(root='/repo'):
     SIGSUB = [('<Self as FileSystem>::Inode', 'VfsInode'), ('<Self as FileSystem>::Handle', 'u64'), ('libc::stat64', 'stat64'),
               ('&mut (dyn AsyncZeroCopyWriter + Send)', '&mut ZW'), ('&mut (dyn AsyncZeroCopyReader + Send)', '&mut ZR'),
               ('fn async_read(', 'fn async_read<ZW: AsyncZeroCopyWriter>('), ('fn async_write(', 'fn async_write<ZR: AsyncZeroCopyReader>(')]
-    ATTR = ('|tp_1|', 'closure', '|tp_1: (stat64, Duration)| -> (q: (stat64, Duration)) ensures q == (self.attr_out(idata, tp_1.0), tp_1.1)')
-    SPL = {
-        'getattr': [ATTR], 'setattr': [ATTR], 'read': PF, 'write': PF,
-        'open': [('|tp_1|', 'closure', '|tp_1: (Option<u64>, OpenOptions, Option<u32>)| -> (q: (Option<u64>, OpenOptions)) ensures q == (tp_1.0, tp_1.1)'),
-                 ('|tp_2|', 'closure', '|tp_2: (Option<u64>, OpenOptions)| -> (q: (Option<u64>, OpenOptions)) ensures q == tp_2'),
-                 ('|v|', 'closure', '|v: u64| -> (w: u64) ensures w == v')],
-        'create': [('|tp_1|', 'closure', '|tp_1: (Entry, Option<u64>, OpenOptions, Option<u32>)| -> (q: (Entry, Option<u64>, OpenOptions)) ensures q == (tp_1.0, tp_1.1, tp_1.2)'),
-                   ('|a|', 'closure', '|a: Entry| -> (q: (Entry, Option<u64>, OpenOptions)) ensures q == (a, b, c)'),
-                   ('|tp_2|', 'closure', '|tp_2: (Entry, Option<u64>, OpenOptions)| -> (q: Result<(Entry, Option<u64>, OpenOptions)>) ensures match q { Ok(t) => tp_2.0.inode <= 0xff_ffff_ffff_ffffu64 && t == (self.entry_out(idata.sidx(), tp_2.0.inode, tp_2.0), tp_2.1, tp_2.2), Err(_) => tp_2.0.inode > 0xff_ffff_ffff_ffffu64 }')],
+    # closure annotations (Verus needs parameter/result types and an `ensures` to see through a closure).  They are keyed by the closure's OWN
+    # parameter list as written in the source; R3 renames the k-th tuple-pattern closure of a body to `tp_k`, so the anchor is computed from
+    # the order of the tuple closures in the current text.  A closure that is not in the table gets no annotation (Verus then reports it).
+    ATTR_T = ('(stat64, Duration)', '(stat64, Duration)', 'q == (self.attr_out(idata, {v}.0), {v}.1)')
+    TUPLE_ANN = {
+        '(attr, duration)': ATTR_T,
+        '(a, b, _)': ('(Option<u64>, OpenOptions, Option<u32>)', '(Option<u64>, OpenOptions)', 'q == ({v}.0, {v}.1)'),
+        '(h, opt)': ('(Option<u64>, OpenOptions)', '(Option<u64>, OpenOptions)', 'q == {v}'),
+        '(a, b, c, _)': ('(Entry, Option<u64>, OpenOptions, Option<u32>)', '(Entry, Option<u64>, OpenOptions)', 'q == ({v}.0, {v}.1, {v}.2)'),
+        '(a, b, c)': ('(Entry, Option<u64>, OpenOptions)', 'Result<(Entry, Option<u64>, OpenOptions)>',
+                      'match q { Ok(t) => {v}.0.inode <= 0xff_ffff_ffff_ffffu64 && t == (self.entry_out(idata.sidx(), {v}.0.inode, {v}.0), {v}.1, {v}.2), Err(_) => {v}.0.inode > 0xff_ffff_ffff_ffffu64 }'),
     }
-    # the pseudo arm of async_getattr converts its result in the sync twin (a second `|(attr, duration)|` closure); annotate it when present
-    with X.features({'async-io'}):
-        gbody = X.Source(root, AV).find_fn(ASC, 'async_getattr')['body']
-    if gbody.count('|(attr, duration)|') == 2:
-        SPL['getattr'] = [ATTR, ('|tp_2|', 'closure', '|tp_2: (stat64, Duration)| -> (q: (stat64, Duration)) ensures q == (self.attr_out(idata, tp_2.0), tp_2.1)')]
+    PLAIN_ANN = [('.map(|a| (a, b, c))', ('|a|', 'closure', '|a: Entry| -> (q: (Entry, Option<u64>, OpenOptions)) ensures q == (a, b, c)')),
+                 ('h.map(Into::into)', ('|v|', 'closure', '|v: u64| -> (w: u64) ensures w == v'))]
+
+    def closure_splices(op):
+        with X.features({'async-io'}):
+            body = X.Source(root, AV).find_fn(ASC, 'async_' + op)['body']
+        out, k = [], 0
+        for m in re.finditer(r'\|(\(\s*(?:(?:mut\s+)?\w+\s*,\s*)+(?:mut\s+)?\w+\s*,?\s*\))\|', X.mask(body)):
+            k += 1
+            ann = TUPLE_ANN.get(X.norm_ws(m.group(1)))
+            if ann:
+                v = 'tp_%d' % k
+                out.append(('|%s|' % v, 'closure', '|%s: %s| -> (q: %s) ensures %s' % (v, ann[0], ann[1], ann[2].replace('{v}', v))))
+        for needle, sp in PLAIN_ANN:
+            if needle in body:
+                out.append(sp)
+        return out
+    SPL = {'read': PF, 'write': PF}
     fns = []
     for op in OPS:
         s = sync[op]
@@ -153,7 +169,7 @@ def unit(root='/repo'):
             notes.append('asyncvfs: contract of async_%s = contract of %s with %r -> %r' % (op, op, a, b))
         entry = [sp for sp in s.splices if sp[0] == '^']
         f = Fn(AV, ASC, 'async_' + op, requires=req, ensures=ens, props=['C20'], canary=True, ret_name='res', sig_subst=SIGSUB, lenient_sig=True,
-               splices=[(sp[0], sp[1], retag(sp[2])) for sp in entry] + SPL.get(op, []))
+               splices=[(sp[0], sp[1], retag(sp[2])) for sp in entry] + SPL.get(op, []) + closure_splices(op))
         f.rules = ('R18',)
         fns.append(f)
     items.append(Group('impl Vfs {', fns))
